@@ -41,6 +41,7 @@ class Kinds:
         self.p = project
         self.ret = {}           # fq -> 'ACC' | {pos: 'ACC'}
         self._names = {}
+        self._rows = {}         # fq -> names of arrays that hold walk states (entries of the accessor, -1 = none)
         for _ in range(3):
             self._names = {}
             for fq, f in project.funcs.items():
@@ -54,6 +55,7 @@ class Kinds:
         if 'accessor' in f.params:
             names.add('accessor')
         self._names[f.fq] = names
+        self._rows.setdefault(f.fq, set())
         changed = True
         while changed:
             changed = False
@@ -65,6 +67,37 @@ class Kinds:
                     names.add(d.name)
                     changed = True
         return names
+
+    def row_names(self, f):
+        """arrays / lists that receive accessor entries (walk states) by subscript store, and lists of slices of those"""
+        if f.fq in self._rows and self._rows[f.fq] is not None and getattr(self, '_rows_done', {}).get(f.fq):
+            return self._rows[f.fq]
+        self.acc_names(f)
+        rows = self._rows.setdefault(f.fq, set())
+        done = getattr(self, '_rows_done', None)
+        if done is None:
+            done = self._rows_done = {}
+        done[f.fq] = True
+        import ast as _ast
+        for nd in f.nodes:
+            for d in nd.defs:
+                if d.kind == 'mutate' and isinstance(d.extra, _ast.Subscript) and isinstance(nd.stmt, _ast.Assign) and d.value is not None:
+                    try:
+                        v = f.term(nd.stmt.value, nd)
+                    except AnalysisError:
+                        continue
+                    if self.kind(v, f) == 'ENTRY' and d.name not in self.acc_names(f):
+                        rows.add(d.name)
+        # lists that collect slices of such arrays: their elements are rows
+        lists = self._names[f.fq]
+        for nd in f.nodes:
+            for d in nd.defs:
+                if d.kind == 'mutate' and isinstance(d.extra, _ast.Attribute) and d.extra.attr == 'append' and d.value is not None:
+                    t = f.term(d.value, nd)
+                    arg = t[2][0] if t[0] == 'call' and t[2] else None
+                    if arg is not None and arg[0] == 'sub' and arg[1][0] == 'v' and arg[1][1] in rows and arg[2][0] == 'slice':
+                        lists.add(d.name)
+        return rows
 
     def _summarise(self, fq, f):
         res = None
@@ -86,7 +119,11 @@ class Kinds:
         """'ACC' | 'ACCT' | 'ROW' | 'COL' | 'ENTRY' | None"""
         k = t[0]
         if k == 'v':
-            return 'ACC' if t[1] in self.acc_names(f) else None
+            if t[1] in self.acc_names(f):
+                return 'ACC'
+            if t[1] in self._rows.get(f.fq, ()):
+                return 'ROW'
+            return None
         if acc_alloc(t) is not None:
             return 'ACC'
         if k == 'call':
